@@ -67,6 +67,9 @@ pub struct World {
     /// message_id values the next Publish carries in its messages (a client that forwards received
     /// messages verbatim); consumed by that Publish.
     pub forward_ids: Mutex<Vec<String>>,
+    /// Counts requests that could carry optional fields (ordering keys on a Publish, the stream
+    /// deadline and client id on a StreamingPull control message); every few of them does.
+    pub optional_fields: AtomicU64,
 }
 
 /// Builds the runtime for one episode.
@@ -170,6 +173,7 @@ impl World {
             settle_inconclusive: AtomicU64::new(0),
             server_task: Mutex::new(server_task),
             forward_ids: Mutex::new(Vec::new()),
+            optional_fields: AtomicU64::new(0),
         })
     }
 
